@@ -180,6 +180,18 @@ def handleFx (fx : Fx) (items : List Sexp) : String :=
     | _, _, _, _ => bad
   | [.atom "hostop", g, next, extra] => match g.int?, next.int?, extra.int? with
     | some g, some next, some extra => resStr toString (hostOp (g == 1) next extra) | _, _, _ => bad
+  | [.atom "pad", g, b, w, .atom a] => match g.int?, b.int?, w.int? with
+    | some g, some b, some w =>
+      let al : Option Align := match a with
+        | "dn" => some (.default true) | "ds" => some (.default false) | "l" => some .left
+        | "c" => some .center | "r" => some .right | _ => none
+      (match al with
+      | some al => resStr pairStr (padFill false g b w al)
+      | none => bad)
+    | _, _, _ => bad
+  | .atom "unpack" :: argc :: lens => match argc.int?, lens.mapM Sexp.int? with
+    | some argc, some lens => resStr toString (unpackArgs false argc lens)
+    | _, _ => bad
   | [.atom "sidx", idx, size] => match idx.int?, size.int? with
     | some idx, some size => resStr toString (signedIndexToUnsigned idx size) | _, _ => bad
   | [.atom "rem", a, b] => match a.int?, b.int? with
